@@ -11,8 +11,8 @@
    [Tidy E s]        : an instance built with use_cache=False has no cache entries.
    [Inv s] = Sound /\ Tidy.  [valid_op] only asks for in-range indexes (and, for ==, a
    duplicate-free other element list). *)
-From FCA Require Import Base.ListSet Spec.PosetSpec Model.Poset
-     Lemmas.C09Base Lemmas.C09Query Lemmas.C09Add Lemmas.C09Del Lemmas.C09InitCd Lemmas.C09.
+From FCA Require Import Base.ListSet Spec.PosetSpec Model.Poset Model.PosetExt
+     Lemmas.C09Base Lemmas.C09Query Lemmas.C09Add Lemmas.C09Del Lemmas.C09InitCd Lemmas.C09 Lemmas.C09Ext.
 
 Section Statements.
   Variable E : Type.
@@ -97,8 +97,38 @@ Section Statements.
     Sound E leq [] s1 -> Sound E leq [] s2 ->
     snd (poset_eq E leq eqb s1 s2) = spec_eq E eqb (els s1) (els s2).
   Proof. exact (eq_is_spec E leq eqb PO). Qed.
+
+  (* the rest of the public surface (Model/PosetExt.v): trace_element(e, direction) called from
+     outside (e need not be an element), children_dict / parents_dict / descendants_dict /
+     ancestors_dict, supremum / infimum — each preserves the invariant and returns the
+     cache-free answer [xspec_step]; [XB o] embeds the calls above *)
+  Theorem C09_xstep_sound : forall s o,
+    Inv E leq s -> xvalid E s o ->
+    Inv E leq (fst (xstep E leq eqb s o)) /\
+    snd (xstep E leq eqb s o) = snd (xspec_step E leq eqb (els s) (use_cache s) o) /\
+    els (fst (xstep E leq eqb s o)) = fst (xspec_step E leq eqb (els s) (use_cache s) o) /\
+    use_cache (fst (xstep E leq eqb s o)) = use_cache s.
+  Proof. exact (xstep_ok E leq eqb PO). Qed.
+
+  Theorem C09_xreachable_sound : forall ops s,
+    Inv E leq s -> xvalid_history E leq eqb (els s) (use_cache s) ops ->
+    Inv E leq (fst (xrun E leq eqb s ops)) /\
+    snd (xrun E leq eqb s ops) = snd (xspec_run E leq eqb (els s) (use_cache s) ops) /\
+    els (fst (xrun E leq eqb s ops)) = fst (xspec_run E leq eqb (els s) (use_cache s) ops) /\
+    use_cache (fst (xrun E leq eqb s ops)) = use_cache s.
+  Proof. exact (xrun_ok E leq eqb PO). Qed.
+
+  (* the boolean test the correspondence applies to the implementation's raw cache
+     dictionaries holds of every state that satisfies the invariant *)
+  Theorem C09_raw_sound_of_Sound : forall s,
+    Sound E leq [] s ->
+    raw_sound E leq (els s) (c_leq s) (c_desc s) (c_anc s) (c_ch s) (c_par s) = true.
+  Proof. exact (raw_sound_of_Sound E leq). Qed.
 End Statements.
 
+Print Assumptions C09_xstep_sound.
+Print Assumptions C09_xreachable_sound.
+Print Assumptions C09_raw_sound_of_Sound.
 Print Assumptions C09_init_sound.
 Print Assumptions C09_init_children_dict_sound.
 Print Assumptions C09_step_sound.
@@ -141,3 +171,13 @@ Proof.
   exists s. split; [exact H1|]. split; [exact H2|].
   vm_compute in H1. injection H1 as <-. vm_compute. reflexivity.
 Qed.
+
+Example C09_ext_nonvacuous :
+  snd (xrun (nat * nat) leq2 eqb2 (init (nat * nat) diamond true)
+            [XB (QCover true 0); XTrace (1, 1) true; XTrace (2, 0) false; XDict true false; XSup true [1; 2]]) =
+  [XO (OSet [1; 2]); XTwo [3] [0; 1; 2; 3]; XTwo [] []; XMap [[]; [0]; [0]; [1; 2]]; XO (OOpt (Some 3))] /\
+  snd (xrun (nat * nat) leq2 eqb2 (init (nat * nat) diamond true)
+            [XB (QCover true 0); XTrace (1, 1) true; XTrace (2, 0) false; XDict true false; XSup true [1; 2]]) =
+  snd (xspec_run (nat * nat) leq2 eqb2 diamond true
+            [XB (QCover true 0); XTrace (1, 1) true; XTrace (2, 0) false; XDict true false; XSup true [1; 2]]).
+Proof. split; vm_compute; reflexivity. Qed.
